@@ -169,7 +169,7 @@ def snapshot(world, need_rho: bool = True, max_dim: int = 4096) -> Snapshot:
             D = int(np.prod(dims))
             arr = np.asarray(ps.state)
             rep = _classify_array(arr, D, f"product space of {members}", _level_int(ps.expansion_level))
-            b = Block("ps", members, dims, _level_int(ps.expansion_level), rep, np.array(arr), f"ps:{id(cont)}:{ps.uid}", ps)
+            b = Block("ps", members, dims, _level_int(ps.expansion_level), rep, np.array(arr), f"ps:{ps.uid}", ps)
             blocks.append(b)
             for m in members:
                 if m in dead:
